@@ -113,6 +113,12 @@ func getSyslSafeName(name string) string {
 	return name
 }
 
+// getSyslSafeSchemaName returns the name under which a schema is defined and referred to: like
+// getSyslTypeName, it prefixes the safe name with "_" when it starts with the name of a native type.
+func getSyslSafeSchemaName(name string) string {
+	return getSyslTypeName(&StandardType{baseType: baseType{name: getSyslSafeName(name)}})
+}
+
 // reservedSyslWords matches the words that the Sysl lexer does not accept as a field name.
 var reservedSyslWords = regexp.MustCompile(
 	"^((?i)as|return|if|for|foreach|until|else|loop|alt|while)$|^(GET|POST|DELETE|PUT|PATCH|OPTIONS|HEAD|TRACE)$")
